@@ -654,10 +654,16 @@ impl<'cmd> Parser<'cmd> {
         let sc = {
             let mut sc = &mut cmd;
 
+            // The generated `help` subcommand only carries other subcommands when the help tree
+            // was expanded for introspection (`Command::build`); never descend into those copies
+            let mut in_generated_help = false;
             for cmd in cmds {
-                sc = if let Some(sc_name) =
-                    sc.find_subcommand(cmd).map(|sc| sc.get_name().to_owned())
+                sc = if let Some(sc_name) = sc
+                    .find_subcommand(cmd)
+                    .filter(|_| !in_generated_help)
+                    .map(|sc| sc.get_name().to_owned())
                 {
+                    in_generated_help = sc_name == "help" && !sc.is_disable_help_subcommand_set();
                     sc._build_subcommand(&sc_name).unwrap()
                 } else {
                     return Err(ClapError::unrecognized_subcommand(
